@@ -78,6 +78,30 @@ TraceEv ==
 
 X2AtZero == \E j \in 1..Len(C.script) : C.script[j].k = 0 /\ C.script[j].action = "modify_x2"
 
+(* ---- Level B attempt grammars of the implicit solvers (ranks of the stepper evaluations between two callbacks) *)
+\* Radau: attempt = (Newton iteration = 3 stage evaluations at x+c1h < x+c2h < x+h)+ , optionally one evaluation at
+\* x (refined error estimate on a first / rejected step); failed attempts are retried with a smaller h; the accepted
+\* attempt is followed by one evaluation at the new x.  Returns [ok, att, it].
+RECURSIVE RadauParse(_, _, _, _, _, _, _)
+RadauParse(evs, i, xo, xn, curC, att, it) ==
+    IF i > Len(evs) THEN [ok |-> FALSE, att |-> att, it |-> it]                       \* the accept evaluation is missing
+    ELSE IF i = Len(evs) THEN [ok |-> (evs[i] = xn /\ curC = xn /\ att >= 1), att |-> att, it |-> it]
+    ELSE IF evs[i] = xo /\ att >= 1 THEN RadauParse(evs, i + 1, xo, xn, curC, att, it)   \* refinement evaluation at x
+    ELSE IF i + 2 <= Len(evs) /\ evs[i] < evs[i + 1] /\ evs[i + 1] < evs[i + 2] /\ evs[i] > xo
+         THEN LET c == evs[i + 2] IN
+              IF c = curC THEN RadauParse(evs, i + 3, xo, xn, curC, att, it + 1)            \* next Newton iteration
+              ELSE IF curC = -1 \/ c < curC THEN RadauParse(evs, i + 3, xo, xn, c, att + 1, it + 1)   \* new (smaller) attempt
+              ELSE [ok |-> FALSE, att |-> att, it |-> it]
+         ELSE [ok |-> FALSE, att |-> att, it |-> it]
+\* BDF: attempt = 1..4 Newton evaluations, all at x+h; failed attempts are retried with a smaller h; the accepted
+\* attempt ends at the new x (no separate evaluation there).
+RECURSIVE BdfParse(_, _, _, _, _, _, _)
+BdfParse(evs, i, xo, xn, cur, att, inAtt) ==
+    IF i > Len(evs) THEN [ok |-> (cur = xn /\ att >= 1), att |-> att, it |-> 0]
+    ELSE IF evs[i] = cur /\ inAtt < 8 THEN BdfParse(evs, i + 1, xo, xn, cur, att, inAtt + 1)
+    ELSE IF evs[i] > xo /\ (cur = -1 \/ evs[i] < cur) THEN BdfParse(evs, i + 1, xo, xn, evs[i], att + 1, 1)
+    ELSE [ok |-> FALSE, att |-> att, it |-> 0]
+
 TraceCb ==
     /\ IsEvent("cb")
     /\ LET e == Rec[l]
@@ -112,7 +136,11 @@ TraceCb ==
                     /\ \A j \in 1..natt - 1 : ends[j] > ends[j + 1]
                     /\ ends[natt] = e.x.r
                     /\ \A j \in 1..Len(evs) : evs[j] >= e.xold.r /\ evs[j] <= ends[1]
-           lbok  == first \/ ~explicit \/ Len(A.iv) >= 4000 \/ A.gapped \/ shape
+           implicitM == C.method \in {"RADAU", "BDF"} /\ C.api = "low"
+           ip == IF first \/ ~implicitM \/ A.gapped \/ Len(A.iv) >= 4000 THEN [ok |-> TRUE, att |-> 0, it |-> 0]
+                 ELSE IF C.method = "RADAU" THEN RadauParse(evs, 1, e.xold.r, e.x.r, -1, 0, 0)
+                 ELSE BdfParse(evs, 1, e.xold.r, e.x.r, -1, 0, 0)
+           lbok  == (first \/ ~explicit \/ Len(A.iv) >= 4000 \/ A.gapped \/ shape) /\ ip.ok
            nrejNow == IF first \/ ~explicit \/ ~shape THEN 0 ELSE natt - 1
            \* rejection counting rule of the code: RK23 counts every rejection; DOPRI5/DOP853 only once two steps were accepted
            rejCounted == IF C.method = "RK23" THEN nrejNow ELSE IF A.mAcc > 1 THEN nrejNow ELSE 0
@@ -133,7 +161,7 @@ TraceCb ==
                          !.recent = {}, !.needDeriv = need,
                          !.iv = <<>>, !.prevMod = (e.ret = "Modified"), !.gapped = FALSE,
                          !.lbBad = IF lbok THEN @ ELSE @ + 1,
-                         !.mAtt = @ + nrejNow + (IF first THEN 0 ELSE 1),
+                         !.mAtt = @ + nrejNow + (IF first THEN 0 ELSE 1) + (IF ip.att > 1 THEN ip.att - 1 ELSE 0),
                          !.mAcc = IF first THEN @ ELSE @ + 1,
                          !.mRej = @ + rejCounted,
                          !.mTot = @ + totNow,
@@ -182,6 +210,8 @@ TraceRet ==
           /\ (lb /\ A.lbBad = 0 /\ ~(R.naccpt = A.mAcc /\ R.nrejct = A.mRej /\ R.nstep = A.mTot))
                 => PrintT(<<"DRIFT", "counting_rule", C.id, C.method, <<R.naccpt, R.nrejct, R.nstep>>, <<A.mAcc, A.mRej, A.mTot>>>>)
           /\ lb => PrintT(<<"COVER", C.method, A.mAcc, A.mAtt - A.mAcc>>)
+       /\ (C.method \in {"RADAU", "BDF"} /\ C.api = "low" /\ R.kind = "low" /\ A.lbBad > 0) => PrintT(<<"DRIFT", "attempt_structure", C.id, C.method>>)
+       /\ (C.method \in {"RADAU", "BDF"} /\ C.api = "low" /\ R.kind = "low" /\ ~A.everGapped) => PrintT(<<"COVER", C.method, A.mAcc, A.mAtt - A.mAcc>>)
        /\ (C.method = "BDF" /\ C.api = "low" /\ A.bdfBad > 0) => PrintT(<<"DRIFT", "bdf_order", C.id, C.method>>)
        /\ (C.method = "BDF" /\ C.api = "low" /\ R.kind = "low") => PrintT(<<"COVER", "BDF_max_order_" \o ToString(A.bdfMax), 1, 0>>)
     /\ A' = [A EXCEPT !.active = FALSE]
